@@ -191,6 +191,7 @@ fn history<Ty: EdgeType, Ix: IndexType>(cx: &mut Cx, rng: &mut Rng, ixname: &str
     let mut kinds = crate::cx::H::new();
     let mut max_vac = (0usize, 0usize);
     let mut failed_calls = 0;
+    let mut snap: Option<SG<Ty, Ix>> = None;
     for step in 0..nops {
         cx.ops += 1;
         let live_n = m.node_count();
@@ -534,9 +535,50 @@ fn history<Ty: EdgeType, Ix: IndexType>(cx: &mut Cx, rng: &mut Rng, ixname: &str
                 }
             }
             11 => {
-                cx.log(|| format!("#{} clone", step));
-                g = g.clone();
-                check = false;
+                cx.log(|| format!("#{} clone / clone_from", step));
+                match rng.below(4) {
+                    0 => g = g.clone(),
+                    1 if snap.is_some() => {
+                        // destination: an earlier state of this very history (same prefix, other links and vacancies)
+                        let mut other: SG<Ty, Ix> = snap.take().unwrap();
+                        cx.log(|| format!("   clone_from into an earlier snapshot with {} nodes / {} edges", other.node_count(), other.edge_count()));
+                        other.clone_from(&g);
+                        g = other;
+                        cx.count("StableGraph:clone_from-into-earlier-snapshot");
+                    }
+                    _ => {
+                        // destination: an unrelated populated graph with vacancies of its own
+                        let mut other: SG<Ty, Ix> = StableGraph::with_capacity(0, 0);
+                        let n = 1 + rng.below(2 * g.node_count().min(20) + 3);
+                        for k in 0..n {
+                            other.add_node(1_000_000 + k as u32);
+                        }
+                        for k in 0..rng.below(2 * g.edge_count().min(30) + 4) {
+                            other.add_edge(NodeIndex::new(rng.below(n)), NodeIndex::new(rng.below(n)), 2_000_000 + k as u32);
+                        }
+                        for _ in 0..rng.below(4) {
+                            let ec = other.edge_count();
+                            if ec > 0 {
+                                let e = other.edge_indices().nth(rng.below(ec)).unwrap();
+                                other.remove_edge(e);
+                            }
+                        }
+                        for _ in 0..rng.below(3) {
+                            if other.node_count() > 1 {
+                                let v = other.node_indices().nth(rng.below(other.node_count())).unwrap();
+                                other.remove_node(v);
+                            }
+                        }
+                        cx.log(|| format!("   clone_from into an unrelated graph with {} nodes / {} edges, bounds {} / {}", other.node_count(), other.edge_count(), other.node_bound(), other.edge_bound()));
+                        other.clone_from(&g);
+                        g = other;
+                        cx.count("StableGraph:clone_from-into-populated-graph");
+                    }
+                }
+                if rng.coin() {
+                    snap = Some(g.clone());
+                }
+                check = true;
             }
             12 => {
                 cx.log(|| format!("#{} Graph::from(clone): compaction in index order", step));
